@@ -287,7 +287,7 @@ Definition class_of_err (e : err) : pclass :=
   | KNotExist | KENOENT => CNotExist
   | KExist => CExist
   | KClosed => CClosed
-  | KENOTDIR => CNotDir
+  | KENOTDIR | KNotADir => CNotDir
   | _ => COther
   end.
 Definition eof_err (e : err) : bool := match ek e with KEOF | KUnexpectedEOF => true | _ => false end.
